@@ -230,13 +230,20 @@ func one(sc Scenario, shared *tds.LoginConfig) (res Result, conf *tds.LoginConfi
 		res.ErrText = err.Error()
 	}
 	res.At = vrt.Now() - start
-	res.Writes = append([][]byte{}, pipe.Writes()...)
-	res.PacketSize = conn.PacketSize()
+	// the client's byte stream cut into packets (however it was spread over Write calls); bytes
+	// that do not complete a packet are kept as a last element so that they are not overlooked
+	res.Writes = append([][]byte{}, pipe.Packets()...)
+	if len(pipe.Partial()) > 0 {
+		res.Writes = append(res.Writes, append([]byte{}, pipe.Partial()...))
+	}
 	if conn.Caps != nil {
 		res.CapsDesc = rx.LibDesc(conn.Caps)
 	}
 	if err == nil {
-		vrt.Settle()
+		vrt.Settle() // an announcement that arrives behind the final DONE is applied once the reader gets to it
+	}
+	res.PacketSize = conn.PacketSize()
+	if err == nil {
 		if p, e := ch.NextPackage(context.Background(), false); e == nil {
 			res.Leftover = rx.LibDesc(p)
 		}
